@@ -37,8 +37,7 @@ type divergence struct {
 // implementation layer predicts (a known defect reproduced exactly), so the
 // behaviour can be followed further.
 func (d divergence) cont() bool {
-	return strings.HasPrefix(d.key, "prune-not-atomic:") || d.key == "fidelity:region-past-block-end-served" ||
-		d.key == "power-loss:rollover-not-synced"
+	return strings.HasPrefix(d.key, "prune-not-atomic:")
 }
 
 // ioEvent is one counted I/O call observed during a Commit.
@@ -635,11 +634,10 @@ type specView struct {
 	kv  map[string]bucketDump
 	blk map[string]bool
 	io  map[string]bool
-	ior map[string]bool // subset of io: the file was closed by a roll-over without Sync
 }
 
 func readSpecView(v tla.Value) specView {
-	s := specView{kv: map[string]bucketDump{}, blk: map[string]bool{}, io: map[string]bool{}, ior: map[string]bool{}}
+	s := specView{kv: map[string]bucketDump{}, blk: map[string]bool{}, io: map[string]bool{}}
 	ks, vs := fnEntries(v.F("kv"))
 	for i := range ks {
 		var d bucketDump
@@ -664,11 +662,6 @@ func readSpecView(v tla.Value) specView {
 	if v.Has("io") {
 		for _, b := range v.F("io").Set() {
 			s.io[b.Str()] = true
-		}
-	}
-	if v.Has("ior") {
-		for _, b := range v.F("ior").Set() {
-			s.ior[b.Str()] = true
 		}
 	}
 	return s
@@ -775,9 +768,6 @@ func (w *world) compareView(real viewDump, spec specView, prefix, where, ctxKey 
 				if !w.reported[b] {
 					w.reported[b] = true
 					key := "prune-not-atomic:" + ctxKey
-					if spec.ior[b] {
-						key = "power-loss:rollover-not-synced"
-					}
 					divs = append(divs, divergence{key, fmt.Sprintf("%s: block %s is listed (HasBlock=true) but cannot be fetched: %s", where, b, o.detail)})
 				}
 			} else if o.class == "ok" && o.has {
